@@ -1867,7 +1867,7 @@ class Einsum(Array):
                 lengths[i] = length if n is None else assert_equal(length, n)
         try:
             self.shape = tuple(lengths[i] for i in self.out_idx)
-        except KeyError(e):
+        except KeyError as e:
             raise ValueError(f'Output axis {e} is not listed in any of the arguments.')
 
     @cached_property
@@ -2413,7 +2413,7 @@ class FloorDivide(Pointwise):
     def dtype(self):
         dtype = self.dividend.dtype
         if self.divisor.dtype != dtype:
-            raise ValueError(f'All arguments must have the same dtype but got {dividend} and {divisor}.')
+            raise ValueError(f'All arguments must have the same dtype but got {dtype} and {self.divisor.dtype}.')
         if dtype == bool:
             raise ValueError(f'The boolean floor division is not supported.')
         return dtype
@@ -2599,7 +2599,7 @@ class Mod(Pointwise):
     def dtype(self):
         dtype = self.dividend.dtype
         if self.divisor.dtype != dtype:
-            raise ValueError(f'All arguments must have the same dtype but got {dividend} and {divisor}.')
+            raise ValueError(f'All arguments must have the same dtype but got {dtype} and {self.divisor.dtype}.')
         if dtype == bool:
             raise ValueError(f'The boolean floor division is not supported.')
         if dtype == complex:
@@ -2739,7 +2739,7 @@ class LogicalNot(Pointwise):
     @cached_property
     def dtype(self):
         if self.x.dtype != bool:
-            raise ValueError(f'Expected a boolean but got {T}.')
+            raise ValueError(f'Expected a boolean but got {self.x.dtype}.')
         return bool
 
     def _simplified(self):
